@@ -151,7 +151,25 @@ pub fn families(prop: &str, tier: Tier) -> Vec<Cfg> {
             a.max_conns = 2;
             a.max_reqs = 2;
             a.dev = if q { 1 } else { 2 };
-            vec![a]
+            // what the broker answered on one connection (Server Keep Alive, Receive Maximum, Maximum Packet
+            // Size, assigned identifier ...) must not leak into the CONNECT of the next one
+            let mut b = Cfg::base("C09-connect-after-broker-overrides");
+            b.props = vec!["C09"];
+            b.keepalive = 30;
+            b.will = true;
+            b.auth = true;
+            b.ops = vec![OpK::Pub1, OpK::DropConn];
+            b.io = IoMenu::benign();
+            b.broker.server_keepalive = vec![None, Some(0), Some(7), Some(600)];
+            b.broker.receive_max = if q { vec![None] } else { vec![None, Some(1)] };
+            b.broker.max_packet = if q { vec![None] } else { vec![None, Some(64)] };
+            b.broker.may_lose_session = true;
+            b.max_ops = if q { 6 } else { 7 };
+            b.max_conns = 3;
+            b.max_reqs = 1;
+            b.dev = 0;
+            b.drain = false;
+            vec![a, b]
         }
         "C02" => {
             // connection death at every I/O call, cancellation, ack orders, resumed reconnects
